@@ -99,6 +99,10 @@ def gen(rng):
         if date_s is not None:
             content += 'DeletionDate=%s\n' % date_s
         content += extra
+        if rng.random() < 0.06:
+            # written on the Windows side of a shared volume / by a sync tool / an editor set to DOS line ends: CR LF (or bare CR)
+            # line ends - a text file like any other, the date is the date
+            content = content.replace('\n', rng.choice(['\r\n', '\r\n', '\r']))
         G.add_trashed(steps, tdir, nm, pv, None, rng.choice(['file', 'dir', 'link', 'none']), info_content=content, tag=str(i))
         if rng.random() < 0.08:
             # next to it an entry called <name>.trashinfo (a stray info file somebody trashed), with a date of its own on the other
